@@ -19,7 +19,7 @@ cat <<R
                 </topic_rule>
 R
 }
-gov() { # file rtps_kind
+gov() { # file rtps_kind [discovery_kind liveliness_kind]   (default ENCRYPT ENCRYPT)
 cat > $1_unsigned.xml <<G
 <?xml version="1.0" encoding="UTF-8"?>
 <dds xmlns:xsi="http://www.w3.org/2001/XMLSchema-instance"
@@ -34,8 +34,8 @@ xsi:noNamespaceSchemaLocation="http://www.omg.org/spec/DDS-SECURITY/20170901/omg
             </domains>
             <allow_unauthenticated_participants>false</allow_unauthenticated_participants>
             <enable_join_access_control>true</enable_join_access_control>
-            <discovery_protection_kind>ENCRYPT</discovery_protection_kind>
-            <liveliness_protection_kind>ENCRYPT</liveliness_protection_kind>
+            <discovery_protection_kind>${3:-ENCRYPT}</discovery_protection_kind>
+            <liveliness_protection_kind>${4:-ENCRYPT}</liveliness_protection_kind>
             <rtps_protection_kind>$2</rtps_protection_kind>
             <topic_access_rules>
 $(topic_rule T_NN NONE NONE)
@@ -51,6 +51,15 @@ $(topic_rule T_NS NONE SIGN)
 G
 $OPENSSL smime -sign -in $1_unsigned.xml -text -out $1.p7s -signer $EX/permissions_ca.cert.pem -inkey $EX/permissions_ca_private_key.pem -passin file:$EX/password
 }
+kind() { case $1 in N) echo NONE;; S) echo SIGN;; E) echo ENCRYPT;; esac; }
+# Strengthening round 3: domain-level discovery / liveliness protection kinds (they decide the submessage protection of
+# the builtin secure endpoints DCPSParticipantSecure / DCPSPublicationsSecure / DCPSSubscriptionsSecure resp.
+# DCPSParticipantMessageSecure): governance_<rtps><discovery><liveliness>.p7s, letters N S E. The combination
+# discovery = liveliness = ENCRYPT is the one of the three documents above.  ONLY=new ./gen.sh makes just these.
+for r in N E; do for d in N S E; do for l in N S E; do
+  if [ $d$l != EE ]; then gov governance_$r$d$l $(kind $r) $(kind $d) $(kind $l); fi
+done; done; done
+[ "$ONLY" = new ] && exit 0
 gov governance_rtpsN NONE
 gov governance_rtpsS SIGN
 gov governance_rtpsE ENCRYPT
